@@ -654,9 +654,12 @@ class WorkTree:
             c.parents = list(merge_heads)
         else:
             try:
-                old_head = self._repo.refs[ref]
-                c.parents = [old_head, *merge_heads]
+                old_head: ObjectID | None = self._repo.refs[ref]
             except KeyError:
+                old_head = None
+            if old_head is not None:
+                c.parents = [old_head, *merge_heads]
+            else:
                 c.parents = list(merge_heads)
 
         # Handle message after parents are set
@@ -726,7 +729,11 @@ class WorkTree:
             self._repo.object_store.add_object(c)
         else:
             try:
-                old_head = self._repo.refs[ref]
+                # The swap is conditioned on the head the parents were taken
+                # from: reading the ref again here would let a commit that
+                # landed in between be silently dropped from the history.
+                if old_head is None:
+                    raise KeyError(ref)
                 if should_sign:
                     from dulwich.signature import get_signature_vendor
 
